@@ -97,20 +97,66 @@ Qed.
 (* ------------------------------------------------------------------ *)
 (* create / get / list / delete                                        *)
 (* ------------------------------------------------------------------ *)
+(* CreateTable in one equation: the names are validated first, then the existence check *)
+Theorem create_spec : forall s parent tid fams now coins,
+  step s (mkCall (BCreateTable parent tid fams) now coins) =
+  if negb (valid_tid tid) || negb (valid_parent parent) then (s, fail cInvalidArgument)
+  else match alookup (table_name parent tid) s with
+       | Some _ => (s, fail cAlreadyExists)
+       | None => (set_table s (table_name parent tid) (mkTable (make_fams fams) []),
+                  ok (YTable (table_name parent tid) (make_fams fams)))
+       end.
+Proof. reflexivity. Qed.
+
+(* an invalid table id or parent: InvalidArgument, nothing changes (whatever the server holds) *)
+Theorem create_rejects_invalid_names : forall s parent tid fams now coins,
+  valid_tid tid = false \/ valid_parent parent = false ->
+  step s (mkCall (BCreateTable parent tid fams) now coins) = (s, fail cInvalidArgument).
+Proof.
+  intros s parent tid fams now coins H. rewrite create_spec.
+  destruct H as [H|H]; rewrite H; cbn [negb orb]; [|rewrite orb_true_r]; reflexivity.
+Qed.
+
+(* the table exists: never created again, the state is unchanged; the status is AlreadyExists for
+   valid names and InvalidArgument otherwise (the validation comes first) *)
 Theorem create_existing : forall s parent tid fams now coins t,
   alookup (table_name parent tid) s = Some t ->
-  step s (mkCall (BCreateTable parent tid fams) now coins) = (s, fail cAlreadyExists).
+  step s (mkCall (BCreateTable parent tid fams) now coins) =
+  (s, fail (if valid_tid tid && valid_parent parent then cAlreadyExists else cInvalidArgument)).
 Proof.
-  intros s parent tid fams now coins t H. unfold step. cbn [cl_req]. unfold table_name in H. rewrite H. reflexivity.
+  intros s parent tid fams now coins t H. rewrite create_spec, H.
+  destruct (valid_tid tid), (valid_parent parent); reflexivity.
 Qed.
 
 Theorem create_new : forall s parent tid fams now coins,
+  valid_tid tid = true -> valid_parent parent = true ->
   alookup (table_name parent tid) s = None ->
   step s (mkCall (BCreateTable parent tid fams) now coins) =
   (set_table s (table_name parent tid) (mkTable (make_fams fams) []),
    ok (YTable (table_name parent tid) (make_fams fams))).
+Proof. intros s parent tid fams now coins H1 H2 H. rewrite create_spec, H1, H2, H. reflexivity. Qed.
+
+(* what a successful CreateTable implies: both names are valid, the table did not exist, and the
+   step is the insertion of the empty table *)
+Theorem create_ok_inv : forall s parent tid fams now coins,
+  br_code (snd (step s (mkCall (BCreateTable parent tid fams) now coins))) = cOK ->
+  valid_tid tid = true /\ valid_parent parent = true /\ alookup (table_name parent tid) s = None
+  /\ step s (mkCall (BCreateTable parent tid fams) now coins) =
+     (set_table s (table_name parent tid) (mkTable (make_fams fams) []),
+      ok (YTable (table_name parent tid) (make_fams fams))).
 Proof.
-  intros s parent tid fams now coins H. unfold step. cbn [cl_req]. unfold table_name in *. rewrite H. reflexivity.
+  intros s parent tid fams now coins. rewrite create_spec.
+  destruct (valid_tid tid), (valid_parent parent); cbn [negb orb]; try (cbn; discriminate).
+  destruct (alookup (table_name parent tid) s); [cbn; discriminate|]. auto.
+Qed.
+
+Theorem create_ok_iff : forall s parent tid fams now coins,
+  br_code (snd (step s (mkCall (BCreateTable parent tid fams) now coins))) = cOK <->
+  valid_tid tid = true /\ valid_parent parent = true /\ alookup (table_name parent tid) s = None.
+Proof.
+  intros s parent tid fams now coins. split.
+  - intros H. apply create_ok_inv in H. tauto.
+  - intros [H1 [H2 H3]]. rewrite create_new; auto.
 Qed.
 
 Theorem get_table_spec : forall s name now coins,
@@ -121,13 +167,14 @@ Proof. intros s name now coins. unfold step. cbn [cl_req]. destruct (alookup nam
 (* after a successful create: the table exists with the given families and without rows, and
    GetTable returns those families *)
 Theorem create_then_get : forall s parent tid fams now coins now' coins',
-  alookup (table_name parent tid) s = None ->
+  br_code (snd (step s (mkCall (BCreateTable parent tid fams) now coins))) = cOK ->
   let s' := fst (step s (mkCall (BCreateTable parent tid fams) now coins)) in
   alookup (table_name parent tid) s' = Some (mkTable (make_fams fams) [])
   /\ step s' (mkCall (BGetTable (table_name parent tid)) now' coins')
      = (s', ok (YTable (table_name parent tid) (make_fams fams))).
 Proof.
-  intros s parent tid fams now coins now' coins' H s'. unfold s'. rewrite create_new; auto. cbn [fst].
+  intros s parent tid fams now coins now' coins' H s'. unfold s'.
+  destruct (create_ok_inv _ _ _ _ _ _ H) as [_ [_ [_ E0]]]. rewrite E0. cbn [fst].
   assert (E : alookup (table_name parent tid) (set_table s (table_name parent tid) (mkTable (make_fams fams) []))
               = Some (mkTable (make_fams fams) [])) by apply alookup_ainsert_same.
   split; auto. rewrite get_table_spec, E. reflexivity.
@@ -166,14 +213,18 @@ Qed.
 
 (* a re-created table starts without rows, whatever it held before *)
 Theorem delete_then_create_empty : forall s parent tid fams now coins now' coins' t, asorted s ->
+  valid_tid tid = true -> valid_parent parent = true ->
   alookup (table_name parent tid) s = Some t ->
   let s1 := fst (step s (mkCall (BDeleteTable (table_name parent tid)) now coins)) in
   let s2 := fst (step s1 (mkCall (BCreateTable parent tid fams) now' coins')) in
-  alookup (table_name parent tid) s2 = Some (mkTable (make_fams fams) []).
+  br_code (snd (step s1 (mkCall (BCreateTable parent tid fams) now' coins'))) = cOK
+  /\ alookup (table_name parent tid) s2 = Some (mkTable (make_fams fams) []).
 Proof.
-  intros s parent tid fams now coins now' coins' t Hs H s1 s2.
+  intros s parent tid fams now coins now' coins' t Hs Ht Hp H s1 s2.
   destruct (delete_then_not_found s _ now coins t Hs H) as [_ [E _]]. fold s1 in E.
-  apply (create_then_get s1 parent tid fams now' coins' 0 []). exact E.
+  assert (Hok : br_code (snd (step s1 (mkCall (BCreateTable parent tid fams) now' coins'))) = cOK)
+    by (apply create_ok_iff; auto).
+  split; [exact Hok|]. apply (create_then_get s1 parent tid fams now' coins' 0 []). exact Hok.
 Qed.
 
 Lemma has_prefix_app p x : has_prefix (p ++ x) p = true.
@@ -189,14 +240,15 @@ Qed.
 
 (* a created table is listed under its parent *)
 Theorem create_then_listed : forall s parent tid fams now coins now' coins',
-  alookup (table_name parent tid) s = None ->
+  br_code (snd (step s (mkCall (BCreateTable parent tid fams) now coins))) = cOK ->
   let s' := fst (step s (mkCall (BCreateTable parent tid fams) now coins)) in
   exists l, step s' (mkCall (BListTables parent) now' coins') = (s', ok (YTables l))
             /\ In (table_name parent tid) l.
 Proof.
   intros s parent tid fams now coins now' coins' H s'.
   destruct (list_tables_spec s' parent now' coins') as [l [E Hl]]. exists l. split; auto. apply Hl. split.
-  - unfold s'. rewrite create_new; auto. cbn [fst]. unfold set_table. apply in_keys_ainsert. left. reflexivity.
+  - unfold s'. destruct (create_ok_inv _ _ _ _ _ _ H) as [_ [_ [_ E0]]]. rewrite E0. cbn [fst].
+    unfold set_table. apply in_keys_ainsert. left. reflexivity.
   - unfold table_name. rewrite app_assoc. apply has_prefix_app.
 Qed.
 
@@ -770,7 +822,8 @@ Theorem step_wf : forall s c, server_wf s -> server_wf (fst (step s c)).
 Proof.
   intros s [r now coins] Hw. pose proof Hw as [Hs Ht].
   destruct r; unfold step; cbn [cl_req cl_now cl_coins].
-  - (* create *) destruct (alookup _ s) eqn:E; cbn [fst]; auto. apply set_table_wf; auto.
+  - (* create *) destruct (negb (valid_tid tid) || negb (valid_parent parent)); cbn [fst]; auto.
+    destruct (alookup _ s) eqn:E; cbn [fst]; auto. apply set_table_wf; auto.
     split; cbn [t_rows t_fams]; [constructor|apply make_fams_sorted].
   - destruct (alookup name s) eqn:E; cbn [fst]; auto. apply aremove_wf; auto.
   - destruct (alookup name s); auto.
@@ -821,3 +874,384 @@ Qed.
 
 Corollary reachable_rows_sorted : forall cs n t, alookup n (fst (run [] cs)) = Some t -> asorted (t_rows t).
 Proof. intros cs n t H. destruct (reachable_wf cs) as [_ G]. destruct (G n t H) as [G1 _]. exact G1. Qed.
+
+(* ------------------------------------------------------------------ *)
+(* table names: what CreateTable's validation buys                     *)
+(* ------------------------------------------------------------------ *)
+Definition s_tables : bytes := [116; 97; 98; 108; 101; 115]%N.   (* "tables" *)
+
+Lemma s_tables_sep_eq : s_tables_sep = 47%N :: s_tables ++ [47%N].
+Proof. reflexivity. Qed.
+
+Definition noslash (w : bytes) : bool := forallb (fun b => negb (N.eqb b 47)) w.
+
+(* strings.Join(l, "/") *)
+Fixpoint join (l : list bytes) : bytes :=
+  match l with
+  | [] => []
+  | x :: r => match r with [] => x | _ => x ++ 47%N :: join r end
+  end.
+
+Lemma join_cons x l : l <> [] -> join (x :: l) = x ++ 47%N :: join l.
+Proof. destruct l; [congruence|reflexivity]. Qed.
+
+Lemma split_go_slash_cons cur c r :
+  split_go s_slash1 0 cur (c :: r) =
+  if N.eqb c 47 then rev cur :: split_go s_slash1 0 [] r else split_go s_slash1 0 (c :: cur) r.
+Proof.
+  cbn [split_go s_slash1 has_prefix length Nat.sub]. rewrite has_prefix_nil, andb_true_r. reflexivity.
+Qed.
+
+Lemma split_go_nonempty s : forall cur, split_go s_slash1 0 cur s <> [].
+Proof.
+  induction s as [|c r IH]; intros cur; [cbn; discriminate|]. rewrite split_go_slash_cons.
+  destruct (N.eqb c 47); [discriminate|apply IH].
+Qed.
+
+Lemma split_go_app_slash a : forall cur b,
+  split_go s_slash1 0 cur (a ++ 47%N :: b) = split_go s_slash1 0 cur a ++ split_go s_slash1 0 [] b.
+Proof.
+  induction a as [|c a IH]; intros cur b; cbn [app].
+  - rewrite split_go_slash_cons, N.eqb_refl. reflexivity.
+  - rewrite !split_go_slash_cons. destruct (N.eqb c 47); [rewrite IH; reflexivity|apply IH].
+Qed.
+
+Lemma split_go_noslash w : forall cur, noslash w = true -> split_go s_slash1 0 cur w = [rev cur ++ w].
+Proof.
+  induction w as [|c w IH]; intros cur H; [cbn; rewrite app_nil_r; reflexivity|].
+  cbn [noslash forallb] in H. apply andb_prop in H. destruct H as [H1 H2]. apply negb_true_iff in H1.
+  rewrite split_go_slash_cons, H1, IH by exact H2. cbn [rev]. rewrite <- app_assoc. reflexivity.
+Qed.
+
+Lemma join_split_go s : forall cur, join (split_go s_slash1 0 cur s) = rev cur ++ s.
+Proof.
+  induction s as [|c r IH]; intros cur; [cbn; rewrite app_nil_r; reflexivity|].
+  rewrite split_go_slash_cons. destruct (N.eqb c 47) eqn:E.
+  - apply N.eqb_eq in E. subst c. rewrite join_cons by apply split_go_nonempty. rewrite IH. reflexivity.
+  - rewrite IH. cbn [rev]. rewrite <- app_assoc. reflexivity.
+Qed.
+
+(* Join undoes Split *)
+Lemma join_split s : join (split s s_slash1) = s.
+Proof. unfold split. apply join_split_go. Qed.
+
+Lemma noslash_rev w : noslash (rev w) = noslash w.
+Proof.
+  unfold noslash. destruct (forallb _ w) eqn:E.
+  - apply forallb_forall. intros x Hx. apply in_rev in Hx. rewrite forallb_forall in E. auto.
+  - destruct (forallb _ (rev w)) eqn:E2; auto. rewrite <- E. symmetry. apply forallb_forall.
+    intros x Hx. rewrite forallb_forall in E2. apply E2. apply in_rev. rewrite rev_involutive. exact Hx.
+Qed.
+
+(* no piece of a Split contains the separator *)
+Lemma split_go_pieces_noslash s : forall cur, noslash cur = true ->
+  Forall (fun w => noslash w = true) (split_go s_slash1 0 cur s).
+Proof.
+  induction s as [|c r IH]; intros cur H.
+  - cbn. constructor; [rewrite noslash_rev; exact H|constructor].
+  - rewrite split_go_slash_cons. destruct (N.eqb c 47) eqn:E.
+    + constructor; [rewrite noslash_rev; exact H|apply IH; reflexivity].
+    + apply IH. cbn [noslash forallb]. rewrite E. exact H.
+Qed.
+
+Lemma split_pieces_noslash s : Forall (fun w => noslash w = true) (split s s_slash1).
+Proof. apply split_go_pieces_noslash. reflexivity. Qed.
+
+(* Split undoes Join on slash-free pieces *)
+Lemma split_join l : l <> [] -> Forall (fun w => noslash w = true) l -> split (join l) s_slash1 = l.
+Proof.
+  induction l as [|x l IH]; intros Hne Hf; [congruence|]. inversion Hf as [|? ? Hx Hl]; subst.
+  destruct l as [|y l].
+  - cbn [join]. unfold split. rewrite split_go_noslash by exact Hx. reflexivity.
+  - rewrite join_cons by discriminate. unfold split. rewrite split_go_app_slash, split_go_noslash by exact Hx.
+    cbn [rev app]. f_equal. apply IH; [discriminate|exact Hl].
+Qed.
+
+Lemma split_app_slash a b : split (a ++ 47%N :: b) s_slash1 = split a s_slash1 ++ split b s_slash1.
+Proof. unfold split. apply split_go_app_slash. Qed.
+
+Lemma has_prefix_iff p : forall s, has_prefix s p = true <-> exists r, s = p ++ r.
+Proof.
+  induction p as [|a p IH]; intros s.
+  - split; [intros _; exists s; reflexivity|intros _; apply has_prefix_nil].
+  - destruct s as [|b s]; cbn [has_prefix].
+    + split; [discriminate|intros [r Hr]; discriminate].
+    + split.
+      * intros H. apply andb_prop in H. destruct H as [H1 H2]. apply N.eqb_eq in H1. subst b.
+        apply IH in H2. destruct H2 as [r ->]. exists r. reflexivity.
+      * intros [r Hr]. cbn [app] in Hr. injection Hr as -> ->. rewrite N.eqb_refl. apply IH. eauto.
+Qed.
+
+(* --- table ids --- *)
+Lemma tid_rest_noslash b : tid_rest b = true -> N.eqb b 47 = false.
+Proof. intros H. destruct (N.eqb_spec b 47) as [->|]; [vm_compute in H; discriminate|reflexivity]. Qed.
+
+Lemma tid_first_rest b : tid_first b = true -> tid_rest b = true.
+Proof. intros H. unfold tid_rest. rewrite H. reflexivity. Qed.
+
+Lemma tid_first_not_dot b : tid_first b = true -> N.eqb b 46 = false.
+Proof. intros H. destruct (N.eqb_spec b 46) as [->|]; [vm_compute in H; discriminate|reflexivity]. Qed.
+
+(* a valid table id contains no "/" ... *)
+Lemma valid_tid_noslash tid : valid_tid tid = true -> noslash tid = true.
+Proof.
+  destruct tid as [|b r]; [discriminate|]. cbn [valid_tid noslash forallb]. intros H.
+  apply andb_prop in H. destruct H as [H1 H2]. rewrite (tid_rest_noslash b (tid_first_rest b H1)). cbn [negb andb].
+  apply forallb_forall. intros x Hx. rewrite forallb_forall in H2. rewrite tid_rest_noslash; auto.
+Qed.
+
+(* ... and is neither empty nor "." nor ".." *)
+Lemma valid_tid_plain tid : valid_tid tid = true -> plain_seg tid = true.
+Proof.
+  destruct tid as [|b r]; [discriminate|]. cbn [valid_tid]. intros H. apply andb_prop in H. destruct H as [H1 _].
+  unfold plain_seg, s_dot, s_dotdot. cbn [beqb]. rewrite (tid_first_not_dot b H1). reflexivity.
+Qed.
+
+Theorem valid_tid_no_slash : forall tid, valid_tid tid = true ->
+  ~ In 47%N tid /\ split tid s_slash1 = [tid].
+Proof.
+  intros tid H. pose proof (valid_tid_noslash tid H) as Hn. split.
+  - intros Hin. unfold noslash in Hn. rewrite forallb_forall in Hn. specialize (Hn _ Hin). discriminate.
+  - unfold split. rewrite split_go_noslash by exact Hn. reflexivity.
+Qed.
+
+(* --- parents --- *)
+Lemma valid_parent_inv p : valid_parent p = true ->
+  exists pr inst, split p s_slash1 = [s_projects; pr; s_instances; inst]
+                  /\ plain_seg pr = true /\ plain_seg inst = true.
+Proof.
+  unfold valid_parent. destruct (split p s_slash1) as [|a [|pr [|b [|inst [|x l]]]]]; try discriminate.
+  intros H. apply andb_prop in H. destruct H as [H H4]. apply andb_prop in H. destruct H as [H H3].
+  apply andb_prop in H. destruct H as [H1 H2]. apply beqb_eq in H1. apply beqb_eq in H2. subst a b.
+  exists pr, inst. auto.
+Qed.
+
+(* --- table names --- *)
+Definition valid_table_name (n : bytes) : Prop :=
+  exists parent tid, n = parent ++ s_tables_sep ++ tid /\ valid_parent parent = true /\ valid_tid tid = true.
+
+(* the same, decided on the name alone *)
+Definition valid_table_nameb (n : bytes) : bool :=
+  match split n s_slash1 with
+  | [a; pr; b; inst; c; tid] =>
+      beqb a s_projects && beqb b s_instances && beqb c s_tables && plain_seg pr && plain_seg inst && valid_tid tid
+  | _ => false
+  end.
+
+Lemma split_table_name parent tid :
+  split (parent ++ s_tables_sep ++ tid) s_slash1 = split parent s_slash1 ++ [s_tables] ++ split tid s_slash1.
+Proof.
+  rewrite s_tables_sep_eq. cbn [app]. rewrite split_app_slash. f_equal. rewrite <- app_assoc. cbn [app].
+  rewrite split_app_slash. f_equal. unfold split. rewrite split_go_noslash by reflexivity. reflexivity.
+Qed.
+
+(* a valid table name is exactly projects/<project>/instances/<instance>/tables/<table id>: six
+   slash-free pieces, none of them empty, "." or ".." *)
+Theorem valid_name_six_segments : forall n, valid_table_name n ->
+  exists pr inst tid,
+    split n s_slash1 = [s_projects; pr; s_instances; inst; s_tables; tid]
+    /\ n = join [s_projects; pr; s_instances; inst; s_tables; tid]
+    /\ plain_seg pr = true /\ plain_seg inst = true /\ valid_tid tid = true
+    /\ noslash pr = true /\ noslash inst = true /\ noslash tid = true.
+Proof.
+  intros n [parent [tid [-> [Hp Ht]]]]. destruct (valid_parent_inv parent Hp) as [pr [inst [E [H1 H2]]]].
+  exists pr, inst, tid.
+  assert (Es : split (parent ++ s_tables_sep ++ tid) s_slash1 = [s_projects; pr; s_instances; inst; s_tables; tid]).
+  { rewrite split_table_name, E. destruct (valid_tid_no_slash tid Ht) as [_ ->]. reflexivity. }
+  pose proof (split_pieces_noslash (parent ++ s_tables_sep ++ tid)) as Hf. rewrite Es in Hf.
+  split; [exact Es|]. split; [pose proof (join_split (parent ++ s_tables_sep ++ tid)) as Hj; rewrite Es in Hj; symmetry; exact Hj|].
+  inversion Hf as [|? ? _ Hf1]; subst. inversion Hf1 as [|? ? Hpr Hf2]; subst. inversion Hf2 as [|? ? _ Hf3]; subst.
+  inversion Hf3 as [|? ? Hinst _]; subst. repeat split; auto. apply valid_tid_noslash; exact Ht.
+Qed.
+
+Theorem valid_table_name_iff : forall n, valid_table_name n <-> valid_table_nameb n = true.
+Proof.
+  intros n. split.
+  - intros H. destruct (valid_name_six_segments n H) as [pr [inst [tid [E [_ [H1 [H2 [H3 _]]]]]]]].
+    unfold valid_table_nameb. rewrite E, !beqb_refl, H1, H2, H3. reflexivity.
+  - unfold valid_table_nameb. intros H. pose proof (join_split n) as Hj. pose proof (split_pieces_noslash n) as Hf.
+    destruct (split n s_slash1) as [|a [|pr [|b [|inst [|c [|tid [|x l]]]]]]]; try discriminate.
+    apply andb_prop in H. destruct H as [H G6]. apply andb_prop in H. destruct H as [H G5].
+    apply andb_prop in H. destruct H as [H G4]. apply andb_prop in H. destruct H as [H G3].
+    apply andb_prop in H. destruct H as [G1 G2].
+    apply beqb_eq in G1. apply beqb_eq in G2. apply beqb_eq in G3. subst a b c. subst n.
+    inversion Hf as [|? ? Ha Hf1]; subst. inversion Hf1 as [|? ? Hpr Hf2]; subst. inversion Hf2 as [|? ? Hb Hf3]; subst.
+    inversion Hf3 as [|? ? Hinst _]; subst.
+    exists (join [s_projects; pr; s_instances; inst]), tid. split; [|split; [|exact G6]].
+    + rewrite s_tables_sep_eq. cbn [join app]. rewrite <- !app_assoc. cbn [app].
+      rewrite <- !app_assoc. cbn [app]. rewrite <- !app_assoc. reflexivity.
+    + unfold valid_parent. rewrite split_join; [|discriminate|repeat constructor; auto].
+      rewrite !beqb_refl, G4, G5. reflexivity.
+Qed.
+
+(* no empty, "." or ".." piece; no leading "/" — the path is already clean, so the directory the disk
+   storage derives from the name is the name itself, segment by segment *)
+Theorem valid_names_are_clean : forall n, valid_table_name n ->
+  Forall (fun seg => plain_seg seg = true) (split n s_slash1)
+  /\ has_prefix n s_slash1 = false
+  /\ length (split n s_slash1) = 6%nat.
+Proof.
+  intros n H. destruct (valid_name_six_segments n H) as [pr [inst [tid [E [En [H1 [H2 [H3 _]]]]]]]].
+  rewrite E. split; [|split; [|reflexivity]].
+  - repeat constructor; auto. apply valid_tid_plain; exact H3.
+  - rewrite En. reflexivity.
+Qed.
+
+(* the directory of one table never lies inside (or equals) the directory of another:
+   n1/ is a prefix of n2/ only when n1 = n2 *)
+Theorem valid_names_not_nested : forall n1 n2, valid_table_name n1 -> valid_table_name n2 -> n1 <> n2 ->
+  ~ has_prefix (n2 ++ s_slash1) (n1 ++ s_slash1) = true.
+Proof.
+  intros n1 n2 V1 V2 Hne Hp. apply Hne. apply has_prefix_iff in Hp. destruct Hp as [r Hr].
+  destruct (valid_name_six_segments n1 V1) as [pr1 [i1 [t1 [E1 [J1 _]]]]].
+  destruct (valid_name_six_segments n2 V2) as [pr2 [i2 [t2 [E2 [J2 _]]]]].
+  assert (Hs : split (n2 ++ s_slash1) s_slash1 = split ((n1 ++ s_slash1) ++ r) s_slash1) by (rewrite Hr; reflexivity).
+  rewrite <- app_assoc in Hs. unfold s_slash1 at 1 3 in Hs. cbn [app] in Hs.
+  rewrite !split_app_slash, E1, E2 in Hs. cbn [app] in Hs.
+  injection Hs as -> -> -> _. rewrite J1, J2. reflexivity.
+Qed.
+
+(* in particular no valid name is a proper path-prefix of another, in either direction *)
+Corollary valid_names_disjoint_dirs : forall n1 n2, valid_table_name n1 -> valid_table_name n2 -> n1 <> n2 ->
+  has_prefix (n2 ++ s_slash1) (n1 ++ s_slash1) = false /\ has_prefix (n1 ++ s_slash1) (n2 ++ s_slash1) = false.
+Proof.
+  intros n1 n2 V1 V2 Hne. split.
+  - destruct (has_prefix (n2 ++ s_slash1) (n1 ++ s_slash1)) eqn:E; auto. exfalso. apply (valid_names_not_nested n1 n2); auto.
+  - destruct (has_prefix (n1 ++ s_slash1) (n2 ++ s_slash1)) eqn:E; auto. exfalso.
+    apply (valid_names_not_nested n2 n1); auto.
+Qed.
+
+(* a valid name determines its parent and table id *)
+Theorem valid_name_unique_parts : forall p1 t1 p2 t2,
+  valid_parent p1 = true -> valid_tid t1 = true -> valid_parent p2 = true -> valid_tid t2 = true ->
+  table_name p1 t1 = table_name p2 t2 -> p1 = p2 /\ t1 = t2.
+Proof.
+  intros p1 t1 p2 t2 Hp1 Ht1 Hp2 Ht2 E. unfold table_name in E.
+  assert (Hs : split (p1 ++ s_tables_sep ++ t1) s_slash1 = split (p2 ++ s_tables_sep ++ t2) s_slash1) by (rewrite E; reflexivity).
+  rewrite !split_table_name in Hs.
+  destruct (valid_parent_inv p1 Hp1) as [pr1 [i1 [E1 _]]]. destruct (valid_parent_inv p2 Hp2) as [pr2 [i2 [E2 _]]].
+  destruct (valid_tid_no_slash t1 Ht1) as [_ S1]. destruct (valid_tid_no_slash t2 Ht2) as [_ S2].
+  rewrite E1, E2, S1, S2 in Hs. cbn [app] in Hs. injection Hs as -> -> ->. split; [|reflexivity].
+  rewrite <- (join_split p1), <- (join_split p2), E1, E2. reflexivity.
+Qed.
+
+(* --- every registered name is valid --- *)
+Definition names_valid (s : server) : Prop := forall n, In n (map fst s) -> valid_table_name n.
+
+Lemma in_keys_alookup {V} k (l : list (bytes * V)) : In k (map fst l) <-> exists v, alookup k l = Some v.
+Proof.
+  split; [apply alookup_some_in_keys|]. intros [v H]. apply alookup_in in H. apply in_map_iff. exists (k, v). auto.
+Qed.
+
+(* only a successful CreateTable adds a name, and the name it adds is valid *)
+Theorem step_new_name : forall s c n,
+  In n (map fst (fst (step s c))) -> ~ In n (map fst s) ->
+  exists parent tid fams, cl_req c = BCreateTable parent tid fams /\ n = table_name parent tid
+    /\ valid_parent parent = true /\ valid_tid tid = true /\ br_code (snd (step s c)) = cOK.
+Proof.
+  intros s [r now coins] n Hin Hnot.
+  assert (Hframe : affected r <> Some n -> False).
+  { intros Ha. apply Hnot. apply in_keys_alookup. apply in_keys_alookup in Hin.
+    rewrite (step_frame s (mkCall r now coins) n) in Hin; auto. }
+  destruct (affected r) as [m|] eqn:Ha; [|exfalso; apply Hframe; discriminate].
+  destruct (beqb m n) eqn:Em; [|exfalso; apply Hframe; apply beqb_neq in Em; congruence].
+  apply beqb_eq in Em. subst m. clear Hframe.
+  destruct r; cbn [affected req_table] in Ha; try discriminate;
+    try (injection Ha as ->; exfalso;
+         match goal with |- _ => idtac end;
+         destruct (alookup n s) eqn:E;
+         [apply Hnot; apply in_keys_alookup; eauto
+         |erewrite missing_table_not_found in Hin; [|reflexivity|exact E]; cbn [fst] in Hin; auto]).
+  injection Ha as <-. cbn [cl_req]. rewrite create_spec in *.
+  destruct (valid_tid tid) eqn:Et, (valid_parent parent) eqn:Ep; cbn [negb orb fst] in *; try contradiction.
+  destruct (alookup (table_name parent tid) s) eqn:E; cbn [fst] in *; [contradiction|].
+  exists parent, tid, fams. repeat split; auto.
+Qed.
+
+(* no request ever invents a name: the names after a step are names held before, or the valid
+   name a successful CreateTable registers *)
+Theorem step_names_valid : forall s c, names_valid s -> names_valid (fst (step s c)).
+Proof.
+  intros s c H n Hin. destruct (in_keys_alookup n s) as [_ Hback].
+  destruct (alookup n s) as [t|] eqn:E.
+  - apply H. apply Hback. eauto.
+  - assert (Hnot : ~ In n (map fst s)).
+    { intros Hn. apply in_keys_alookup in Hn. destruct Hn as [v Hv]. congruence. }
+    destruct (step_new_name s c n Hin Hnot) as [parent [tid [fams [_ [-> [Hp [Ht _]]]]]]].
+    exists parent, tid. auto.
+Qed.
+
+Theorem run_names_valid : forall cs s, names_valid s -> names_valid (fst (run s cs)).
+Proof.
+  induction cs as [|c cs IH]; intros s H; cbn [run]; auto.
+  pose proof (step_names_valid s c H) as H1. destruct (step s c) as [s1 r]. cbn [fst] in H1.
+  specialize (IH s1 H1). destruct (run s1 cs) as [s2 rs]. exact IH.
+Qed.
+
+(* every table name registered in any reachable server is a valid name *)
+Theorem reachable_table_names_valid : forall cs n,
+  In n (map fst (fst (run [] cs))) -> valid_table_name n.
+Proof. intros cs. apply run_names_valid. intros n H. destruct H. Qed.
+
+(* ... hence two different tables of a reachable server never have nested directories *)
+Corollary reachable_tables_not_nested : forall cs n1 n2 t1 t2,
+  alookup n1 (fst (run [] cs)) = Some t1 -> alookup n2 (fst (run [] cs)) = Some t2 -> n1 <> n2 ->
+  has_prefix (n2 ++ s_slash1) (n1 ++ s_slash1) = false.
+Proof.
+  intros cs n1 n2 t1 t2 H1 H2 Hne.
+  apply valid_names_disjoint_dirs; auto; apply (reachable_table_names_valid cs); apply in_keys_alookup; eauto.
+Qed.
+
+(* --- non-vacuity: names the validation accepts and rejects --- *)
+Definition ex_parent : bytes := s_projects ++ s_slash1 ++ [112%N] ++ s_slash1 ++ s_instances ++ s_slash1 ++ [105%N].
+                                                                 (* projects/p/instances/i *)
+Definition ex_tid : bytes := [116; 49]%N.                        (* t1 *)
+Definition ex_tid2 : bytes := [116; 50]%N.                       (* t2 *)
+
+Example ex_valid_names :
+  valid_parent ex_parent = true /\ valid_tid ex_tid = true
+  /\ valid_tid [95; 65; 46; 45; 122; 57]%N = true                (* _A.-z9 *)
+  /\ valid_table_nameb (table_name ex_parent ex_tid) = true.
+Proof. vm_compute. auto. Qed.
+
+Example ex_invalid_tids :
+  valid_tid [] = false
+  /\ valid_tid (ex_tid2 ++ s_slash1 ++ s_dotdot ++ s_slash1 ++ ex_tid) = false   (* t2/../t1 *)
+  /\ valid_tid (s_dot ++ s_slash1 ++ ex_tid) = false                             (* ./t1 *)
+  /\ valid_tid s_dotdot = false /\ valid_tid s_dot = false                       (* .. and . *)
+  /\ valid_tid (s_dot ++ ex_tid) = false                                         (* .t1 *)
+  /\ valid_tid (45%N :: ex_tid) = false                                          (* -t1 *)
+  /\ valid_tid (ex_tid ++ [32%N]) = false                                        (* "t1 " *)
+  /\ valid_tid (ex_tid ++ s_tables_sep ++ ex_tid2) = false.                      (* t1/tables/t2 *)
+Proof. vm_compute. repeat split. Qed.
+
+Example ex_invalid_parents :
+  valid_parent [] = false
+  /\ valid_parent [112%N] = false                                                (* p *)
+  /\ valid_parent (s_slash1 ++ ex_parent) = false                                (* /projects/p/instances/i *)
+  /\ valid_parent (ex_parent ++ s_slash1) = false                                (* projects/p/instances/i/ *)
+  /\ valid_parent (ex_parent ++ s_tables_sep ++ ex_tid) = false                  (* a table name as parent: the nesting corner *)
+  /\ valid_parent (s_projects ++ s_slash1 ++ s_dotdot ++ s_slash1 ++ s_instances ++ s_slash1 ++ [105%N]) = false  (* projects/../instances/i *)
+  /\ valid_parent (s_projects ++ s_slash1 ++ s_slash1 ++ s_instances ++ s_slash1 ++ [105%N]) = false              (* projects//instances/i *)
+  /\ valid_parent (s_projects ++ s_slash1 ++ [112%N] ++ s_slash1 ++ s_instances ++ s_slash1 ++ s_dot) = false     (* projects/p/instances/. *)
+  /\ valid_parent (s_dotdot ++ s_slash1 ++ ex_parent) = false.                   (* ../projects/p/instances/i *)
+Proof. vm_compute. repeat split. Qed.
+
+(* the wiping requests of the defect are now refused and leave the server as it was *)
+Example ex_create_rejected :
+  let s := fst (run [] [mkCall (BCreateTable ex_parent ex_tid []) 0 []]) in
+  s <> []
+  /\ step s (mkCall (BCreateTable ex_parent (ex_tid2 ++ s_slash1 ++ s_dotdot ++ s_slash1 ++ ex_tid) []) 0 [])
+     = (s, fail cInvalidArgument)
+  /\ step s (mkCall (BCreateTable ex_parent (s_dot ++ s_slash1 ++ ex_tid) []) 0 []) = (s, fail cInvalidArgument)
+  /\ step s (mkCall (BCreateTable (table_name ex_parent ex_tid) ex_tid2 []) 0 []) = (s, fail cInvalidArgument)
+  /\ br_code (snd (step s (mkCall (BCreateTable ex_parent ex_tid2 []) 0 []))) = cOK.
+Proof. vm_compute. repeat split. discriminate. Qed.
+
+(* t1 and t10 are string-prefix related, but their directories are not nested *)
+Example ex_not_nested :
+  let n1 := table_name ex_parent ex_tid in
+  let n2 := table_name ex_parent (ex_tid ++ [48%N]) in
+  valid_table_nameb n1 = true /\ valid_table_nameb n2 = true /\ has_prefix n2 n1 = true
+  /\ has_prefix (n2 ++ s_slash1) (n1 ++ s_slash1) = false.
+Proof. vm_compute. auto. Qed.
